@@ -82,7 +82,7 @@ func c09prop(ev *evid.Rec) func(rt *rapid.T) {
 				return
 			}
 			var lastRef []byte
-			have := 0          // bytes of content the server holds in the partial file (model)
+			have := 0            // bytes of content the server holds in the partial file (model)
 			partialMade := false // whether the server got far enough to create the partial file
 			attempt := func(cut int, label string) (completed bool) {
 				resume := partialMade
